@@ -377,6 +377,52 @@ def n4(prog, rep):
               "the address loop must advance C->sas", function="tryconnect", construct="loop-advance")
 
 
+
+def closed_fd_rule(prog, rep):
+    """A descriptor that has been closed does not stay in the request: after close(C->s) the field is overwritten (with -1
+    or the next socket) on every path before the function returns, unless the request itself is released.  The completion
+    callback reports C->s; a stale number there is a descriptor the caller never owned (and may since belong to someone else)."""
+    n = 0
+    for up in UNITS:
+        u = prog.unit(up)
+        for f in u.funcs:
+            if f.file != up:
+                continue
+            for c in f.calls("close"):
+                t = norm(c.arg(0))
+                if t[0] != ".":
+                    continue
+                n += 1
+                stores = [e for e in f.all_elems() if e.is_assign and e.op == "=" and norm(e.kid(0)) == t]
+                frees = [x for x in f.calls() if x.callee in ("free",) and norm(x.arg(0)) == root_var(t)]
+                okc = False
+                for r in f.returns() or []:
+                    pass
+                # every path from the close to a return passes a store to the field (or a release of the request)
+                blockers = set(e.block.id for e in stores if e.block.id != c.block.id or e.i > c.i) | set(x.block.id for x in frees)
+                same_block_after = any(e.block.id == c.block.id and e.i > c.i for e in stores)
+                if same_block_after:
+                    okc = True
+                else:
+                    seen = set()
+                    work = [s_ for s_ in c.block.succs if s_ is not None]
+                    okc = True
+                    while work:
+                        b = work.pop()
+                        if b in seen or b in blockers:
+                            continue
+                        seen.add(b)
+                        blk = f.blocks[b]
+                        if any(e.cls == "ReturnStmt" for e in blk.elems) or b == f.exit:
+                            okc = False
+                            break
+                        work.extend(x for x in blk.succs if x is not None)
+                rep.check(okc, "N4", "%s in %s: the closed descriptor does not stay in the request" % (c.text[:30], f.name), c.where,
+                          "a return is reachable after this close without %s being overwritten: the completion would report a closed descriptor number instead of -1 (or the next socket)" % show(t),
+                          function=f.name, construct="closed-fd")
+    return n
+
+
 def n5(prog, rep, up, L):
     u = prog.unit(up)
     sysc = SYSCALL[up]
@@ -542,6 +588,11 @@ def run(tier):
                 n6_relational(prog, rep, up, L)
         n1(prog, rep)
         n4(prog, rep)
+        if closed_fd_rule(prog, rep) < 1:
+            rep.defer_broken("N4: no close() of a descriptor kept in a request found")
+        # a failed registration leaves nothing registered (shared with C14): C06's requests register in events_network.c
+        from . import c14
+        c14.register_atomic_rule(ir.Program(["events/events_network.c"], cfg), rep)
     n = len(configs)
     rep.require_min("LIN", 10 * n)
     rep.require_min("CANCELS", 8 * n)
